@@ -326,10 +326,24 @@ impl ResolvedData {
 
 /// Formats a string as a JavaScript string literal that can be embedded in a `<script>` tag.
 fn js_string(value: &str) -> String {
-    // escapes < to prevent it being interpreted as another opening HTML tag
-    //
-    // this has to happen after the string has been formatted: otherwise, the backslash of
-    // the `\u003c` escape sequence is itself escaped, and the client reads the six
-    // characters `\u003c` instead of `<`
-    format!("{value:?}").replace('<', "\\u003c")
+    let mut buf = String::with_capacity(value.len() + 2);
+    buf.push('"');
+    for c in value.chars() {
+        match c {
+            // escapes < to prevent it being interpreted as another opening HTML tag
+            //
+            // this cannot be done before escaping the rest of the string: the backslash
+            // of the `\u003c` escape sequence would itself be escaped, and the client
+            // would read the six characters `\u003c` instead of `<`
+            '<' => buf.push_str("\\u003c"),
+            // Rust escapes NUL as `\0`, which JavaScript reads as the start of an octal
+            // escape sequence if the next character is a digit
+            '\0' => buf.push_str("\\u0000"),
+            '\'' => buf.push(c),
+            // same escaping as `{:?}` on a `str`: `\\`, `\"`, `\n`, `\u{..}`, ...
+            _ => buf.extend(c.escape_debug()),
+        }
+    }
+    buf.push('"');
+    buf
 }
